@@ -1,2 +1,3 @@
 CONSTANT N = 4
 CONSTANT Alphabet <- SmallAlphabet
+CONSTANT EscapePercent = TRUE
